@@ -103,8 +103,9 @@ func b2i(b bool) int {
 // ---------------------------------------------------------------- simulated auto scaling + EC2
 
 type SimInst struct {
-	ID     string
-	Launch time.Time
+	ID          string
+	Launch      time.Time
+	Terminating bool
 }
 
 type SimASG struct {
@@ -115,6 +116,7 @@ type SimASG struct {
 	Instances []SimInst
 	Subnets   string
 	Tagged    bool
+	Linger    bool // terminated instances stay listed (Terminating) until InstanceGone
 }
 
 type SimAWS struct {
@@ -166,7 +168,11 @@ func (s *SimAWS) DescribeAutoScalingGroups(in *autoscaling.DescribeAutoScalingGr
 			g.Tags = []*autoscaling.TagDescription{{Key: aws.String("k8s.io/atlassian-escalator/enabled"), Value: aws.String("true")}}
 		}
 		for _, i := range a.Instances {
-			g.Instances = append(g.Instances, &autoscaling.Instance{InstanceId: aws.String(i.ID), AvailabilityZone: aws.String("az1"), LifecycleState: aws.String("InService")})
+			st := "InService"
+			if i.Terminating {
+				st = "Terminating"
+			}
+			g.Instances = append(g.Instances, &autoscaling.Instance{InstanceId: aws.String(i.ID), AvailabilityZone: aws.String("az1"), LifecycleState: aws.String(st)})
 		}
 		out.AutoScalingGroups = append(out.AutoScalingGroups, g)
 	}
@@ -238,6 +244,8 @@ func (s *SimAWS) TerminateInstanceInAutoScalingGroup(in *autoscaling.TerminateIn
 		c.S = "nil-id"
 	case owner == nil:
 		c.S = "unknown-instance"
+	case owner.Instances[idx].Terminating:
+		c.G, c.S = owner.Group, "terminating"
 	case fail:
 		c.G, c.S = owner.Group, "injected"
 	case dec && owner.Desired-1 < owner.Min:
@@ -248,7 +256,11 @@ func (s *SimAWS) TerminateInstanceInAutoScalingGroup(in *autoscaling.TerminateIn
 		if dec {
 			owner.Desired--
 		}
-		owner.Instances = append(owner.Instances[:idx:idx], owner.Instances[idx+1:]...)
+		if owner.Linger {
+			owner.Instances[idx].Terminating = true
+		} else {
+			owner.Instances = append(owner.Instances[:idx:idx], owner.Instances[idx+1:]...)
+		}
 	}
 	s.J.Add(c)
 	if !c.Ok {
